@@ -50,6 +50,7 @@ class Clause:
     shards: dict = field(default_factory=lambda: {'quick': NPROC, 'thorough': NPROC})
     space: str = ''                      # description of the enumerated sub-space (exhaustive)
     max_shrink_s: dict = field(default_factory=lambda: {'quick': 25.0, 'thorough': 180.0})
+    memory_is_violation: bool = False    # C01 only: exponential growth of the evaluator is the defect itself
 
 
 class HarnessError(Exception):
@@ -96,6 +97,11 @@ class Stats:
 
     def record(self, case, out: Outcome):
         self.evaluations += 1
+        if self.evaluations % 64 == 0:
+            # the toolbox's schema objects form reference cycles; collect them regularly so that long shards
+            # do not run into the address-space limit
+            import gc
+            gc.collect()
         for c in out.classes:
             self.classes[c] += 1
         if out.nontrivial:
@@ -134,6 +140,9 @@ def _safe_check(clause: Clause, case) -> Outcome:
     out = clause.check(case)
     if not isinstance(out, Outcome):
         raise HarnessError(f'{clause.name}: check returned {type(out)}')
+    if not clause.memory_is_violation and any('MemoryError' in str(m)[:40] for _, m in out.discrepancies):
+        # running out of address space inside a worker is a harness problem, never a verdict on the code
+        raise HarnessError(f'{clause.name}: MemoryError while checking a case')
     return out
 
 
